@@ -46,6 +46,7 @@ MANIFEST = dict(
 
 REQUIRED = [
     "Xmp.Seq.C16_inv_start", "Xmp.Seq.C16_inv_frame", "Xmp.Seq.C16_frame_info", "Xmp.Seq.C16_loop_monotone",
+    "Xmp.Seq.C16_loop_monotone_run", "Xmp.Seq.C16_inv_control", "Xmp.Seq.C16_reachable",
     "Xmp.Seq.C16_inv_control_partial", "Xmp.Seq.C16_control_counterexample", "Xmp.Seq.C16_reachable_partial",
     "Xmp.Tick.C16_ticksize", "Xmp.Tick.C16_framesize_bound_partial", "Xmp.Tick.C16_framesize_counterexample",
     "Xmp.Tick.C16_ticksize_agrees",
